@@ -432,6 +432,8 @@ class LogRule(object):
     def method_order(self):
         """The leading order of the truncation error of the Richardson extrapolation."""
         step = self.richardson_step
+        if self.method == 'multicomplex':
+            return step  # no finite difference rule is applied: the quotient is always O(h**2)
         # Make sure it is even and at least 2 or 4
         order = max((self.order // step) * step, step)
         return order
